@@ -3,7 +3,7 @@ from treeshapes import avl_shapes
 
 PROPERTY = {
     "level": "proof",
-    "explanation": "the real insert / remove / lookup code run on EVERY valid AVL tree of depth <= 3 (<= 7 nodes; one unit per tree shape, keys/positions symbolic; a deterministic sample (every 6th) of the depth-4 shapes = up to 15 nodes in the thorough tier; VERIF_FULL_D4=1 runs all of them, ~3 h), every key position (new or resident) and every node to remove; the result is judged by a recursive checker over the actual links (search order, parent links, stored balance factor == height difference, |difference| <= 1) and by node count + lookups (element set)",
+    "explanation": "the real insert / remove / lookup code run on EVERY valid AVL tree of depth <= 3 (<= 7 nodes; one unit per tree shape, keys/positions symbolic; a deterministic sample (every 16th) of the depth-4 shapes = up to 15 nodes in the thorough tier; VERIF_FULL_D4=1 runs all of them, ~3 h), every key position (new or resident) and every node to remove; the result is judged by a recursive checker over the actual links (search order, parent links, stored balance factor == height difference, |difference| <= 1) and by node count + lookups (element set)",
     "trusted_base": ["cbmc 6.11.0 (SAT back end CaDiCaL)"],
     "assumptions": [
         "induction over histories: every operation is verified from every valid tree of the bounded depth; UNBOUNDED part: window lemmas avl_lemma_growth / avl_lemma_shrink prove the retrace steps a_avl_handle_growth / a_avl_handle_shrink (with a_avl_rotate / a_avl_rotate2, packed layout) for subtrees of every size (ghost heights up to 2^20): valid window + height restored, or the step invariant one level up; the induction over the climb loop is a paper step. Glue lemmas (same windows, the retrace step replaced by a recording stand-in through DFCC contract replacement): avl_lemma_insert_first(_root) - a_avl_insert_adjust either absorbs the new leaf (valid window, no step) or starts exactly one step at (grandparent, parent, side) in a heap that IS the step invariant J_grow; avl_lemma_unlink_simple(_root) - a_avl_remove of a node with at most one child hands exactly J_shrink to the first step (or installs the child as root); avl_lemma_splice / avl_lemma_splice_remove - the successor splice a_avl_handle_remove (spine depth <= 2) directly and through a_avl_remove's two-child path incl. the side handed to the first step. Not covered by a lemma: the descent/search loops, successors deeper than two levels (bounded whole trees only)",
@@ -45,16 +45,16 @@ UNITS += [
                        ("unlink_simple", ["a_avl_remove"], "remove \\(simple unlink\\): the child replaces"), ("unlink_simple_root", ["a_avl_remove"], "the child becomes the root"))
 ] + [
     U("avl_packed_accessors", "trees.c", "h_packed", level="P", functions=["a_avl_set_parent_factor", "a_avl_set_parent", "a_avl_set_factor", "a_avl_parent", "a_avl_factor", "a_avl_init"], replay=RP, min_obl=3, defines=["D=2"], cbmc=["--object-bits", "10"]),
-    T("avl_insert_d2_packed", "h_insert", 2, tiers=("thorough",), functions=INS, timeout=1800, cost=100, mem_gb=40),
-    T("avl_remove_d2_packed", "h_remove", 2, tiers=("thorough",), functions=REM, timeout=1800, cost=100, mem_gb=40),
+    T("avl_insert_d2_packed", "h_insert", 2, tiers=("thorough",), functions=INS, timeout=1800, cost=100, mem_gb=40, mem_est=30),
+    T("avl_remove_d2_packed", "h_remove", 2, tiers=("thorough",), functions=REM, timeout=1800, cost=100, mem_gb=40, mem_est=30),
 ]
 # depth-4 shapes: one unit takes 3-5 min, all 335 of them ~3 h on 16 cores.  The registered thorough tier runs a deterministic
-# sample (every 6th shape in enumeration order, ~35 min); VERIF_FULL_D4=1 selects all of them.
+# sample (every 16th shape in enumeration order; a unit needs 5-8 GB, so only a few run at once: ~1 h); VERIF_FULL_D4=1 selects all of them.
 import os
 _d4 = [m for m in avl_shapes(4) if m >= 0x80]  # depth <= 3 shapes are covered above
 if not os.environ.get("VERIF_FULL_D4"):
-    _d4 = _d4[::6]
+    _d4 = _d4[::16]
 for m in _d4:
     b = "AVL tree shape 0x%04x of depth 4 (<= 15 nodes), keys and positions symbolic" % m
-    UNITS.append(T("avl_insert_d4_s%04x" % m, "h_insert", 4, tiers=("thorough",), defs=["A_SIZE_POINTER=1", "SHAPE=0x%x" % m], functions=INS, bound=b, timeout=1200))
-    UNITS.append(T("avl_remove_d4_s%04x" % m, "h_remove", 4, tiers=("thorough",), defs=["A_SIZE_POINTER=1", "SHAPE=0x%x" % m], functions=REM, bound=b, timeout=1200))
+    UNITS.append(T("avl_insert_d4_s%04x" % m, "h_insert", 4, tiers=("thorough",), defs=["A_SIZE_POINTER=1", "SHAPE=0x%x" % m], functions=INS, bound=b, timeout=1200, mem_est=9))
+    UNITS.append(T("avl_remove_d4_s%04x" % m, "h_remove", 4, tiers=("thorough",), defs=["A_SIZE_POINTER=1", "SHAPE=0x%x" % m], functions=REM, bound=b, timeout=1200, mem_est=9))
